@@ -40,6 +40,35 @@ type Sched struct {
 	// Ignore, when set, makes yields at the given site pass through.
 	Ignore func(site string) bool
 	Steps  int
+
+	// PCT scheduling (Burckhardt et al., ASPLOS 2010): every task gets a random
+	// priority when it first appears, the enabled task with the highest priority
+	// runs, and at a few pre-drawn step numbers the running task drops to the
+	// lowest priority. Unlike uniform choice this keeps one task paused for a long
+	// stretch with non-negligible probability, which ordering bugs of small
+	// depth need. All draws go through Choose, so a recorded run replays.
+	// PauseAt (with PCT): when the task about to run is parked at one of these
+	// sites it is, with probability 1/PauseOdds, dropped to the lowest priority
+	// instead - change points biased towards the windows the properties are about.
+	PauseAt   map[string]bool
+	PauseOdds int
+	pct       bool
+	pctPrio   map[int]int
+	pctChange map[int]bool
+	pctLow    int
+}
+
+// UsePCT switches the scheduler to PCT with the given depth and step horizon.
+func (s *Sched) UsePCT(depth, horizon int) {
+	s.pct = true
+	s.pctPrio = map[int]int{}
+	s.pctChange = map[int]bool{}
+	if horizon < 1 {
+		horizon = 1
+	}
+	for i := 0; i < depth-1; i++ {
+		s.pctChange[s.Choose(horizon)] = true
+	}
 }
 
 // NewSched must be called on the bubble's root goroutine.
@@ -214,7 +243,49 @@ func (s *Sched) StepAny() bool {
 	if len(en) == 0 {
 		return false
 	}
-	s.Release(en[s.Choose(len(en))])
+	if !s.pct {
+		s.Release(en[s.Choose(len(en))])
+		return true
+	}
+	var best *Task
+	for _, t := range en {
+		if _, ok := s.pctPrio[t.ID]; !ok {
+			s.pctPrio[t.ID] = 1 + s.Choose(1000)
+		}
+		// A task spinning on a contended lock (parked at "lockwait") only makes
+		// progress after the holder ran: it yields to every other enabled task.
+		if t.Site == "lockwait" {
+			continue
+		}
+		if best == nil || s.pctPrio[t.ID] > s.pctPrio[best.ID] {
+			best = t
+		}
+	}
+	if best == nil {
+		// only lock-waiters are enabled: rotate among them
+		best = en[s.Steps%len(en)]
+	}
+	if s.pctChange[s.Steps] {
+		s.pctLow--
+		s.pctPrio[best.ID] = s.pctLow
+	} else if s.PauseOdds > 0 && s.PauseAt[best.Site] && len(en) > 1 && s.Choose(s.PauseOdds) == 0 {
+		s.pctLow--
+		s.pctPrio[best.ID] = s.pctLow
+		// re-pick once among the others
+		var alt *Task
+		for _, t := range en {
+			if t == best || t.Site == "lockwait" {
+				continue
+			}
+			if alt == nil || s.pctPrio[t.ID] > s.pctPrio[alt.ID] {
+				alt = t
+			}
+		}
+		if alt != nil {
+			best = alt
+		}
+	}
+	s.Release(best)
 	return true
 }
 
